@@ -181,11 +181,11 @@ class Gen:
 
     def op_rotate(self):
         # 4 sealed memtables stall writers (by design); never queue more than 3 without draining
+        self.cap(1)          # first: it may drain (and then resets the counter of sealed memtables)
         if getattr(self, "rot", 0) >= 3:
             self.emit("drain")
             self.rot = 0
         self.rot = getattr(self, "rot", 0) + 1
-        self.cap(1)
         self.emit("rotate " + self.h())
 
     def op_step(self):
